@@ -25,8 +25,6 @@ package main
 
 import (
 	"fmt"
-	"os"
-	"runtime/pprof"
 
 	"verif/checks/c13/hist"
 	"verif/kit"
@@ -34,11 +32,6 @@ import (
 
 func main() {
 	ops := hist.Ops()
-	if pf := os.Getenv("C13_PROF"); pf != "" {
-		f, _ := os.Create(pf)
-		pprof.StartCPUProfile(f)
-		defer pprof.StopCPUProfile()
-	}
 	kit.Main(&kit.Check{
 		ID: "C13", Level: "model_checking",
 		Rule: "case = (world kind x seed) x (seed state | first accepted op); inside a case breadth-first search over accepted ops up to the depth, states deduplicated by private state; at every state every op of the alphabet (AddFeature) and every merged change of the menu (MergedChange.Apply) is attempted on a world rebuilt by replay. A case is non-trivial when its first op is accepted into a valid state; distinct = states processed. Oracle: error returned => observable dump and private state equal to those before the call.",
@@ -57,33 +50,33 @@ func main() {
 			}
 			n := int64(len(combos)) * int64(1+len(ops))
 			return kit.FuncSpace{N: n, F: func(i int64) kit.Result {
-				var r kit.Result
-				// seed states first (simplest), then first-op cases
-				var c hist.Combo
-				first := -1
-				if i < int64(len(combos)) {
-					c = combos[i]
-				} else {
-					j := i - int64(len(combos))
-					c = combos[j%int64(len(combos))]
-					first = int(j / int64(len(combos)))
-				}
-				hist.Explore(c, first, opt, &r)
-				name := "seed"
-				if first >= 0 {
-					name = ops[first].Name
-				}
-				r.Key = c.String() + "/" + name
-				if r.Outcome == "" {
-					r.Outcome = fmt.Sprintf("explored:%s", c.Kind)
-				}
-				if first == hist.OpIndex("w0-triangle-ccw") || first < 0 {
-					r.Sample = map[string]interface{}{"world": c.String(), "first_op": name, "states": r.States, "attempts": r.Transitions,
-						"alphabet": len(ops), "merged_changes": len(hist.MergedMenu(opt.MergedPairs))}
-				}
-				return r
-			}}, fmt.Sprintf("%d world kind x seed combinations (3 kinds, %d seeds); histories of <= %d accepted ops over an alphabet of %d AddFeature ops; at every state %d AddFeature attempts + %d MergedChange attempts",
-				len(combos), len(hist.Seeds()), opt.Depth, len(ops), len(ops), len(hist.MergedMenu(opt.MergedPairs)))
+					var r kit.Result
+					// seed states first (simplest), then first-op cases
+					var c hist.Combo
+					first := -1
+					if i < int64(len(combos)) {
+						c = combos[i]
+					} else {
+						j := i - int64(len(combos))
+						c = combos[j%int64(len(combos))]
+						first = int(j / int64(len(combos)))
+					}
+					hist.Explore(c, first, opt, &r)
+					name := "seed"
+					if first >= 0 {
+						name = ops[first].Name
+					}
+					r.Key = c.String() + "/" + name
+					if r.Outcome == "" {
+						r.Outcome = fmt.Sprintf("explored:%s", c.Kind)
+					}
+					if first == hist.OpIndex("w0-triangle-ccw") || first < 0 {
+						r.Sample = map[string]interface{}{"world": c.String(), "first_op": name, "states": r.States, "attempts": r.Transitions,
+							"alphabet": len(ops), "merged_changes": len(hist.MergedMenu(opt.MergedPairs))}
+					}
+					return r
+				}}, fmt.Sprintf("%d world kind x seed combinations (3 kinds, %d seeds); histories of <= %d accepted ops over an alphabet of %d AddFeature ops; at every state %d AddFeature attempts + %d MergedChange attempts",
+					len(combos), len(hist.Seeds()), opt.Depth, len(ops), len(ops), len(hist.MergedMenu(opt.MergedPairs)))
 		},
 	})
 }
